@@ -130,14 +130,60 @@ theorem dag_no_recycle {path : List Item} {r : List Nat} {o : SortOut}
   subst hm hu hm' hu'
   exact hac _ (Relation.TransGen.trans r1 r2)
 
-/-- The same two statements for the whole call `Network.sort(ends)` on a network without
-sub-networks: the recycle set is unchanged, the units are permuted, and without the warning the
-order is topological. -/
+/-- **sort_dag_converges**.  On a path of units of an acyclic graph the `N·N` passes of
+`Network.sort` always suffice: the loop leaves with `stop = true`, i.e. without the
+"network path could not be determined" warning, whatever the order of the units. -/
+theorem sort_dag_converges {path : List Item} {r : List Nat} {o : SortOut}
+    (h : sortLevel g ends path r = .ok o)
+    (hflat : ∀ it ∈ path, ∃ u, it = .unit u) (hac : ∀ u, ¬ Reach g ends u u) :
+    o.stop = true := by
+  obtain ⟨ps, e0, hgood, _, _, e3⟩ := sortLevel_inv h
+  rw [e3]
+  apply bubble_converges
+  have unitOf : ∀ p, p ∈ ps → ∃ u, p.item = .unit u := by
+    intro p hp
+    exact hflat p.item (by rw [← e0]; exact List.mem_map_of_mem hp)
+  have key : ∀ p q, p ∈ ps → q ∈ ps → ∀ a b, p.item = .unit a → q.item = .unit b →
+      (p.downFrom q = true ↔ Reach g ends b a) := by
+    intro p q hp hq a b ha hb
+    rw [downFrom_iff (hgood p hp) (hgood q hq), ha, hb]
+    constructor
+    · rintro ⟨m, hm, u, hu, hr⟩
+      simp only [Item.flat, List.mem_singleton] at hm hu
+      subst hm hu; exact hr
+    · intro hr
+      exact ⟨a, by simp [Item.flat], b, by simp [Item.flat], hr⟩
+  constructor
+  · intro p hp
+    obtain ⟨a, ha⟩ := unitOf p hp
+    cases hd : p.downFrom p with
+    | false => rfl
+    | true => exact absurd ((key p p hp hp a a ha ha).mp hd) (hac a)
+  · intro p q s hp hq hs h1 h2
+    obtain ⟨a, ha⟩ := unitOf p hp
+    obtain ⟨b, hb⟩ := unitOf q hq
+    obtain ⟨c, hc⟩ := unitOf s hs
+    exact (key p s hp hs a c ha hc).mpr
+      (Relation.TransGen.trans ((key q s hq hs b c hb hc).mp h2) ((key p q hp hq a b ha hb).mp h1))
+
+/-- **The acyclic half of the property, for the sorting stage.**  Whatever order of the units of an
+acyclic flowsheet reaches `Network.sort`, it returns them (the same items, permuted) in an order in
+which no unit precedes a unit that transitively feeds it, adds no recycle and does not warn. -/
+theorem sort_dag_topological {path : List Item} {r : List Nat} {o : SortOut}
+    (h : sortLevel g ends path r = .ok o)
+    (hflat : ∀ it ∈ path, ∃ u, it = .unit u) (hac : ∀ u, ¬ Reach g ends u u) :
+    o.stop = true ∧ o.recycle = r ∧ o.path.Perm path ∧
+      ∀ (i j a b : Nat), i < j → o.path[i]? = some (.unit a) → o.path[j]? = some (.unit b) → ¬ Reach g ends b a :=
+  ⟨sort_dag_converges h hflat hac, dag_no_recycle h hflat hac, sort_perm h,
+    sort_clean_topological h (sort_dag_converges h hflat hac) hflat hac⟩
+
+/-- The same for the whole call `Network.sort(ends)` on a network without sub-networks: the recycle
+set is unchanged, the units are permuted into a topological order, and no warning is issued. -/
 theorem sortItem_dag {p : List Item} {r : List Nat} {it' : Item} {w : Nat}
     (h : sortItem g ends (.net p r) = .ok (it', w))
     (hflat : ∀ it ∈ p, ∃ u, it = .unit u) (hac : ∀ u, ¬ Reach g ends u u) :
-    ∃ p', it' = .net p' r ∧ p'.Perm p ∧
-      (w = 0 → ∀ (i j a b : Nat), i < j → p'[i]? = some (.unit a) → p'[j]? = some (.unit b) → ¬ Reach g ends b a) := by
+    ∃ p', it' = .net p' r ∧ p'.Perm p ∧ w = 0 ∧
+      ∀ (i j a b : Nat), i < j → p'[i]? = some (.unit a) → p'[j]? = some (.unit b) → ¬ Reach g ends b a := by
   unfold sortItem at h
   rw [sortList_units hflat] at h
   simp only at h
@@ -145,13 +191,9 @@ theorem sortItem_dag {p : List Item} {r : List Nat} {it' : Item} {w : Nat}
   · exact absurd h (by simp)
   · rename_i o ho
     injection h with h; injection h with h1 h2; subst h1
-    refine ⟨o.path, by rw [dag_no_recycle ho hflat hac], sort_perm ho, ?_⟩
-    intro hw i j a b hij ha hb
-    have hs : o.stop = true := by
-      cases hst : o.stop with
-      | true => rfl
-      | false => rw [hst] at h2; simp at h2; omega
-    exact sort_clean_topological ho hs hflat hac i j a b hij ha hb
+    obtain ⟨hs, hr, hp, ht⟩ := sort_dag_topological ho hflat hac
+    refine ⟨o.path, by rw [hr], hp, ?_, ht⟩
+    rw [hs] at h2; simpa using h2.symm
 
 /-! ## The depth-first walk -/
 
@@ -206,6 +248,37 @@ theorem dfs_acyclic_no_recycle {units : List Nat} {feed : Nat} {st : DfsSt}
   | cons pr rest =>
     obtain ⟨v, _, _, hr⟩ := (fill_path_covers hout h).2 pr.1 pr.2 (by rw [hw]; exact List.mem_cons_self ..)
     exact absurd hr (hac v)
+
+/-- **dfs_cycle_found** (converse of part (ii)).  If, following streams from `feed` inside `units`
+without crossing `ends`, one can come back to a unit already passed (`WalkHits`: the feed reaches a
+cycle), then at least one path with a recycle is returned. -/
+theorem dfs_cycle_found {units : List Nat} {feed : Nat} {st : DfsSt}
+    (h : findPaths g units feed ends = .ok st) (w : WalkHits g units ends feed []) : st.withR ≠ [] := by
+  unfold findPaths at h
+  have := fillPath_found _ feed [] _ st h w
+  intro e; rw [e] at this; simp at this
+
+/-! ## No error branch is ever taken -/
+
+/-- **dfs_total**.  The recursion bound of the model of `fill_path` (number of units + 2) is never hit. -/
+theorem dfs_total (g : Graph) (units : List Nat) (feed : Nat) (ends : List Nat) :
+    ∃ st, findPaths g units feed ends = .ok st := findPaths_total g units feed ends
+
+/-- **sort_total**.  On a flowsheet whose streams end in given units, the `n` rounds the model gives
+`get_downstream_units` always reach the fixpoint, so `Network.sort` never ends in `Err.fuel` —
+at any nesting depth. -/
+theorem sort_total (hg : g.SinksOK) (ends : List Nat) (it : Item) : ∃ r, sortItem g ends it = .ok r :=
+  sortItem_total hg ends it
+
+/-- All of the acyclic case at once, with no side condition on the run: for every order of the units
+of an acyclic flowsheet `Network.sort` returns, without warning and without adding a recycle, a
+permutation in which no unit precedes a unit that transitively feeds it. -/
+theorem sort_dag (hg : g.SinksOK) (hac : ∀ u, ¬ Reach g ends u u) (path : List Item) (r : List Nat)
+    (hflat : ∀ it ∈ path, ∃ u, it = .unit u) :
+    ∃ o, sortLevel g ends path r = .ok o ∧ o.stop = true ∧ o.recycle = r ∧ o.path.Perm path ∧
+      ∀ (i j a b : Nat), i < j → o.path[i]? = some (.unit a) → o.path[j]? = some (.unit b) → ¬ Reach g ends b a := by
+  obtain ⟨o, ho⟩ := sortLevel_total hg ends path r
+  exact ⟨o, ho, sort_dag_topological ho hflat hac⟩
 
 /-! ## The property's observable and the checker -/
 
@@ -298,6 +371,51 @@ theorem validNetwork_sound {p : Item} {R : List Nat} (hlen : g.outs.length ≤ g
               | nil => rfl
               | cons _ _ => simp at hR
 
+/-- **The acyclic half of C19, end to end for the sorting stage.**  Let `g` be an acyclic flowsheet and
+let the (unmodelled) joining machinery hand `Network.sort` a path that lists every given unit exactly
+once, in any order, with no recycle, and `ends` consisting of product streams only.  Then the network
+`sort` leaves behind satisfies the property's statement `Holds`, and no warning is issued.  So on
+acyclic flowsheets the only thing the joining heuristics have to get right is "each unit once". -/
+theorem sort_dag_holds (hg : g.SinksOK) (hlen : g.outs.length ≤ g.n)
+    (hends : ∀ s, s ∈ ends → g.sinkOf s = none) (hac : ¬ Cyclic g)
+    (path : List Item) (hflat : ∀ it ∈ path, ∃ u, it = .unit u)
+    (hexact : ∀ u, u ∈ flatList path ↔ u < g.n) (hnd : (flatList path).Nodup) :
+    ∃ o, sortLevel g ends path [] = .ok o ∧ o.stop = true ∧ Holds g (.net o.path o.recycle) o.recycle := by
+  have hac' : ∀ u, ¬ Reach g ends u u := fun u hr => hac ⟨u, (reach_ends_iff hends u u).mp hr⟩
+  obtain ⟨o, ho, hstop, hrec, hperm, htopo⟩ := sort_dag hg hac' path [] hflat
+  have hfl := flatList_perm hperm
+  have hflat' : ∀ it ∈ o.path, ∃ u, it = .unit u := fun it hit => hflat it (hperm.mem_iff.mp hit)
+  have hnd' : (flatList o.path).Nodup := hfl.symm.nodup hnd
+  refine ⟨o, ho, hstop, ?_, ?_, fun hc => absurd hc hac⟩
+  · intro u
+    simp only [Item.flat]
+    rw [hfl.mem_iff]; exact hexact u
+  · intro _
+    refine ⟨by simpa [Item.flat] using hnd', ?_, hrec⟩
+    intro a b e
+    have ha : a ∈ flatList o.path := hfl.mem_iff.mpr ((hexact a).mpr (Nat.lt_of_lt_of_le e.lt_outs_length hlen))
+    have hb : b ∈ flatList o.path := by
+      obtain ⟨s, _, _, hk⟩ := e
+      exact hfl.mem_iff.mpr ((hexact b).mpr (hg s b hk))
+    obtain ⟨i, hi⟩ := List.mem_iff_getElem?.mp ha
+    obtain ⟨j, hj⟩ := List.mem_iff_getElem?.mp hb
+    have hi' := (flatList_units_getElem? hflat' i a).mp hi
+    have hj' := (flatList_units_getElem? hflat' j b).mp hj
+    have hr : Reach g ends a b := (reach_ends_iff hends a b).mpr (Relation.TransGen.single e)
+    have hpos : ∀ (k c : Nat), (flatList o.path)[k]? = some c → pos (.net o.path o.recycle) c = k := by
+      intro k c hk
+      obtain ⟨hlt, hc⟩ := List.getElem?_eq_some_iff.mp hk
+      unfold pos
+      simp only [Item.flat]
+      rw [← hc]; exact hnd'.idxOf_getElem k hlt
+    rw [hpos i a hi, hpos j b hj]
+    rcases Nat.lt_trichotomy i j with h | h | h
+    · exact h
+    · subst h
+      rw [hi] at hj; injection hj with hj; subst hj
+      exact absurd hr (hac' a)
+    · exact absurd hr (htopo j i b a h hj' hi')
+
 /-! ## Feed ordering -/
 
 /-- `sort_feeds_big_to_small` permutes the feeds … -/
@@ -344,6 +462,21 @@ example : ∃ o, sortLevel G1 [4] [.unit 2, .unit 1, .unit 0] [] = .ok o ∧ o.s
   simp only [List.mem_cons, List.not_mem_nil, or_false] at hit
   rcases hit with rfl | rfl | rfl <;> exact ⟨_, rfl⟩
 
+/-- all hypotheses of `sort_dag_holds` hold on `G1` with the units in reverse order. -/
+example : G1.SinksOK ∧ G1.outs.length ≤ G1.n ∧ (∀ s, s ∈ [4] → G1.sinkOf s = none) ∧ ¬ Cyclic G1 ∧
+    (∀ it ∈ [Item.unit 2, .unit 1, .unit 0], ∃ u, it = .unit u) ∧
+    (∀ u, u ∈ flatList [.unit 2, .unit 1, .unit 0] ↔ u < G1.n) ∧ (flatList [.unit 2, .unit 1, .unit 0]).Nodup := by
+  refine ⟨sinksOK_of_B (by decide), by decide, ?_, ?_, ?_, ?_, by decide⟩
+  · intro s hs; simp only [List.mem_singleton] at hs; subst hs; decide
+  · rintro ⟨u, hu⟩; exact acyclic_of_acyclicB (g := G1) (ends := []) (by decide) u hu
+  · intro it hit
+    simp only [List.mem_cons, List.not_mem_nil, or_false] at hit
+    rcases hit with rfl | rfl | rfl <;> exact ⟨_, rfl⟩
+  · intro u
+    simp only [flatList, Item.flat, List.append_nil, List.cons_append, List.nil_append, List.mem_cons,
+      List.not_mem_nil, or_false, G1]
+    omega
+
 /-- Why the general form `sort_clean_sorted` speaks of mutual reachability: on the closed ring `G2`
 (no stream in `ends`) `sort` leaves *without* the warning and without a recycle although `U0`
 precedes `U1`, which feeds it — every pair is mutually reachable and no adjacent pair in path
@@ -383,6 +516,15 @@ example : ∃ st, findPaths G3 [0, 1] 2 [3] = .ok st ∧ st.withR = [([0, 1], 1)
     (P := fun st => st.withR == [([0, 1], 1)] && st.ends == [3, 1]) (by decide)
   simp only [Bool.and_eq_true, beq_iff_eq] at hP
   exact ⟨st, hst, hP.1, hP.2⟩
+
+/-- `dfs_cycle_found` on `G3`: feed → U0 → U1 → back to U0. -/
+example : WalkHits G3 [0, 1] [3] 2 [] :=
+  .step (v := 0) (f' := 0) (by decide) (by decide) (by decide) (by decide) (by decide)
+    (.step (v := 1) (f' := 1) (by decide) (by decide) (by decide) (by decide) (by decide)
+      (.hit (v := 0) (by decide) (by decide) (by decide) (by decide) ⟨0, by decide, by decide⟩))
+
+example : G1.SinksOK ∧ G2.SinksOK ∧ G3.SinksOK :=
+  ⟨sinksOK_of_B (by decide), sinksOK_of_B (by decide), sinksOK_of_B (by decide)⟩
 
 /-- the checker accepts the right answers (so `validNetwork_sound` is not vacuous) … -/
 example : validNetwork G1 (.net [.unit 0, .unit 1, .unit 2] []) [] = true ∧ G1.outs.length ≤ G1.n := by decide
